@@ -6,11 +6,12 @@ from ..symx import run_paths
 from ..lin import Form, Lin
 
 MANIFEST = {
-    'technique': 'symbolic linear forms of Reaction.dH, Stream.Hf/Hnet and adiabatic_reaction; extraction of the latent-heat decision table and check that it is a potential difference; statement-order rule',
-    'text': 'Decides for every input: dH is X*sum((Hf+latent)*S) (divided by MW on a weight basis); the 6-entry latent-heat table over '
-            '(reference phase, reaction phase) equals h[phase]-h[ref] for h={s:0,l:Hfus,g:Hfus+Hvap}; adiabatic_reaction reads Hnet+Q before '
-            'reacting and Hf after and assigns H = Hnet+Q-Hf; Hnet getter and setter are inverse and Hf is sum(Hf_i*n_i). Numerical agreement and '
-            'model ranges are not decided.',
+    'technique': 'symbolic linear forms of Reaction.dH, Stream.Hf/Hnet and adiabatic_reaction; extraction of the latent-heat decision table and check that it is a '
+            'potential difference; statement-order rule; the ordering rule is applied to every normal path',
+    'text': 'Decides for every input: dH is X*sum((Hf+latent)*S) (divided by MW on a weight basis); the 6-entry latent-heat table over (reference phase, reaction '
+            'phase) equals h[phase]-h[ref] for h={s:0,l:Hfus,g:Hfus+Hvap}; adiabatic_reaction reads Hnet+Q before reacting and Hf after and assigns H = Hnet+Q-Hf '
+            'on EVERY normal path (no exit after the reaction without the assignment); Hnet getter and setter are inverse and Hf is sum(Hf_i*n_i). Numerical '
+            'agreement and model ranges are not decided.',
 }
 
 RX = 'thermosteam/reaction/_reaction.py'
@@ -151,25 +152,33 @@ def run(ctx):
     g = prog.method('Reaction', 'adiabatic_reaction', rel=RX)
     ps, _ = run_paths(g.node)
     ps = [p for p in ps if not p.raised]
-    p = ps[0]
+    if not ps:
+        raise AnalysisError('Reaction.adiabatic_reaction: no normal path')
     s = g.params[1]
-    ev = p.events
-    a = [e for e in ev if e.kind == 'assign' and e.value == Form.atom('%s.Hnet' % s) + Form.atom('Q')]
-    c = [e for e in ev if e.kind == 'call' and e.target == 'self' and e.value == [Form.atom(s)]]
-    st = [e for e in ev if e.kind == 'store' and e.target == '%s.H' % s]
-    if a and c and st and ev.index(a[0]) < ev.index(c[0]) < ev.index(st[0]):
-        d3.ok('Reaction.adiabatic_reaction', 'Hnet+Q is read before the reaction is applied', g, a[0].stmt)
-        if st[0].value == Form.atom('%s.Hnet' % s) + Form.atom('Q') - Form.atom('%s.Hf' % s) \
-                and '%s.Hf' % s in src(st[0].stmt.value):
-            d3.ok('Reaction.adiabatic_reaction', 'H <- (Hnet+Q) - Hf with Hf read after the reaction', g, st[0].stmt)
+    for i, p in enumerate(ps):
+        # EVERY normal exit must close the balance: a path that leaves without assigning H drops Q and the heat of reaction
+        ev = p.events
+        a = [e for e in ev if e.kind == 'assign' and e.value == Form.atom('%s.Hnet' % s) + Form.atom('Q')]
+        c = [e for e in ev if e.kind == 'call' and e.target == 'self' and e.value == [Form.atom(s)]]
+        st = [e for e in ev if e.kind == 'store' and e.target == '%s.H' % s]
+        if c and not st:
+            d3.fail('Reaction.adiabatic_reaction', 'exit-without-closure',
+                    'a path applies the reaction and returns without assigning H: Q and the heat of reaction are dropped on it (taken when %s)'
+                    % ' and '.join('%s is %s' % (src(t), k) for t, k in p.conds[-2:]), g, p.ret_node or g.node)
+            continue
+        if a and c and st and ev.index(a[0]) < ev.index(c[0]) < ev.index(st[0]):
+            d3.ok('Reaction.adiabatic_reaction', 'Hnet+Q is read before the reaction is applied', g, a[0].stmt)
+            if st[0].value == Form.atom('%s.Hnet' % s) + Form.atom('Q') - Form.atom('%s.Hf' % s) \
+                    and '%s.Hf' % s in src(st[0].stmt.value):
+                d3.ok('Reaction.adiabatic_reaction', 'H <- (Hnet+Q) - Hf with Hf read after the reaction', g, st[0].stmt)
+            else:
+                d3.fail('Reaction.adiabatic_reaction', 'closure', 'H is assigned %s, expected Hnet+Q-Hf(after)' % st[0].value, g, st[0].stmt)
+            if len([e for e in ev if e.kind == 'call' and e.target == 'self']) == 1:
+                d3.ok('Reaction.adiabatic_reaction', 'the reaction is applied exactly once', g, c[0].stmt)
+            else:
+                d3.fail('Reaction.adiabatic_reaction', 'twice', 'the reaction is applied more than once', g, g.node)
         else:
-            d3.fail('Reaction.adiabatic_reaction', 'closure', 'H is assigned %s, expected Hnet+Q-Hf(after)' % st[0].value, g, st[0].stmt)
-        if len([e for e in ev if e.kind == 'call' and e.target == 'self']) == 1:
-            d3.ok('Reaction.adiabatic_reaction', 'the reaction is applied exactly once', g, c[0].stmt)
-        else:
-            d3.fail('Reaction.adiabatic_reaction', 'twice', 'the reaction is applied more than once', g, g.node)
-    else:
-        d3.fail('Reaction.adiabatic_reaction', 'order', 'not (read Hnet+Q; react; assign H): Hnet must be read before and Hf after the reaction', g, g.node)
+            d3.fail('Reaction.adiabatic_reaction', 'order', 'not (read Hnet+Q; react; assign H): Hnet must be read before and Hf after the reaction', g, g.node)
 
     # ---- D4
     hn = prog.method('Stream', 'Hnet', rel=ST)
